@@ -19,18 +19,19 @@ VARIABLES dev, sh,        \* device rate (renderer's dt), published rate
 ivars == <<dev, sh, trk, gpc, stale, nchg, cb, evq>>
 vars == <<ivars, act, ev, mon, bad>>
 
+\* (the initial "rate" event counts as epoch 1 in the monitor)
 Init == /\ dev \in Rates /\ sh = dev /\ trk = <<>> /\ gpc = "idle" /\ stale = FALSE /\ nchg = 0 /\ cb = 0 /\ evq = <<>>
-        /\ act = <<"Init">> /\ ev = [a |-> "rate", r |-> dev] /\ mon = [PInit EXCEPT !.rate = dev] /\ bad = ""
+        /\ act = <<"Init">> /\ ev = [a |-> "rate", r |-> dev] /\ mon = [PInit EXCEPT !.rate = dev, !.epoch = 1] /\ bad = ""
 
 \* add_sub_track, first half: build, load the published rate, init_effects  (then yield point ctl.reserved)
 GLoad == /\ gpc = "idle" /\ Len(trk) < MaxTracks /\ evq = <<>>
          /\ trk' = Append(trk, [where |-> "hand", eff |-> sh])
-         /\ gpc' = "loaded" /\ act' = <<"GLoad">> /\ ev' = [a |-> "tau"]
+         /\ gpc' = "loaded" /\ act' = <<"GLoad">> /\ ev' = [a |-> "load", t |-> Len(trk) + 1]
          /\ UNCHANGED <<dev, sh, stale, nchg, cb, evq>>
 \* second half: enqueue
 GEnqueue == /\ gpc = "loaded" /\ evq = <<>>
             /\ trk' = [trk EXCEPT ![Len(trk)].where = "ring"]
-            /\ gpc' = "idle" /\ act' = <<"GEnqueue">> /\ ev' = [a |-> "tau"]
+            /\ gpc' = "idle" /\ act' = <<"GEnqueue">> /\ ev' = [a |-> "enq"]
             /\ UNCHANGED <<dev, sh, stale, nchg, cb, evq>>
 
 \* Renderer::on_change_sample_rate (between callbacks)
@@ -48,7 +49,7 @@ Callback == /\ cb < MaxCb /\ evq = <<>> /\ cb' = cb + 1
                /\ evq' = [i \in 1..Cardinality({j \in 1..Len(t2) : t2[j].where = "arena"}) |->
                             LET j == CHOOSE k \in 1..Len(t2) : t2[k].where = "arena" /\ Cardinality({h \in 1..k : t2[h].where = "arena"}) = i IN
                             [a |-> "proc", t |-> j, seen |-> t2[j].eff, idt |-> dev]]
-            /\ act' = <<"Callback">> /\ ev' = [a |-> "tau"]
+            /\ act' = <<"Callback">> /\ ev' = [a |-> "cbk"]
             /\ UNCHANGED <<dev, sh, gpc, nchg>>
 Emit == /\ evq # <<>> /\ ev' = Head(evq) /\ evq' = Tail(evq) /\ act' = <<"Emit">>
         /\ UNCHANGED <<dev, sh, trk, gpc, stale, nchg, cb>>
